@@ -13,11 +13,14 @@ ASSUMPTIONS = [
     "DPP/MDPP rewards come from a physics simulator with no independent definition: not covered here (their "
     "batch-independence is C04)",
 ]
-REQUIRED_COUNTERS = ["episodes", "c03_rewards_checked"]
+REQUIRED_COUNTERS = ["episodes", "c03_rewards_checked", "torchrl_lookahead_probes", "reused_instance_objects"]
 MIN_NONTRIVIAL = {"quick": 5000, "thorough": 50000}
 WORKERS = {"quick": 12, "thorough": 16}
 BUDGET_S = {"quick": 400, "thorough": 3000}
 THOROUGH_ROUNDS = 2
+
+
+TORCHRL_ENVS = {"tsp", "atsp", "cvrp", "cvrptw", "sdvrp", "svrp", "op", "pctsp", "spctsp", "pdp", "mtsp", "mtvrp", "mdcpdp"}
 
 
 def cases(tier, seed):
@@ -44,6 +47,8 @@ def cases(tier, seed):
     for i, c_ in enumerate(out):
         if i % 4 == 3:
             c_["reuse"] = True
+        elif i % 4 == 1 and "cfg" in c_ and c_.get("kind", "routing") == "routing" and c_["cfg"]["env"] in TORCHRL_ENVS:
+            c_["torchrl"] = True  # TorchRL-mode env driven with look-ahead probes
     return out
 
 
